@@ -1149,6 +1149,7 @@ fn main() {
         "simulated_time_ms": stats.virtual_us / 1000,
         "real_components": ["emitted clients (generated at check time from the working tree): envelopes, CheckRestrictions impls, service methods, helpers::send_soap_request_using_client, error::SoapError", "yaserde, yaserde_derive, xml-rs, log"],
         "stub_components": ["crate reqwest (sim/net/stub/reqwest): Client/RequestBuilder/Response/Error surface", "executor, network, scripted server and virtual clock (reqwest::sim)"],
+        "batch_digest": format!("{:016x}", stats.digest),
         "determinism_selfcheck": {"runs_repeated": slice.len(), "worker_counts": [simkernel::workers(), 3], "mismatches": mism},
         "violating_runs_before_dedup": stats.found.len(),
     });
